@@ -70,7 +70,18 @@ def main(inp, outp):
         clause("name line is kept", t.name == (name[2:] if name.startswith("0 ") else name), "tle/name", f"name {t.name!r}", data)
         # ---- writing the orbit back gives the identical lines -------------------------------------------
         try:
-            back = Tle.from_orbit(t.orbit())
+            # the doors of the writer, in turn: identification taken from the orbit's attributes / given as keyword arguments (the
+            # object's own values, the identifier as a string or as an integer) / the orbit copied first / str() of the object itself
+            door = vi % 4
+            orb_ = t.orbit()
+            if door == 0:
+                back = Tle.from_orbit(orb_)
+            elif door == 1:
+                back = Tle.from_orbit(orb_, name=t.name or None, norad_id=str(t.norad_id) if vi % 8 == 1 else int(t.norad_id), cospar_id=t.cospar_id or None)
+            elif door == 2:
+                back = Tle.from_orbit(orb_.copy())
+            else:
+                back = Tle.from_orbit(orb_.copy(form="keplerian_mean").copy(form="TLE"))
             btxt = str(back)
         except Exception as e:
             clause("the parsed orbit can be written back", False, "tle/writeback-raises", f"{type(e).__name__}: {e} for\n{text}", data)
